@@ -6,7 +6,7 @@ import numpy as np
 from hypothesis import strategies as st
 
 from vlib import gen_tree, models
-from vlib.harness import Machine
+from vlib.harness import Machine, Sub
 
 PROPERTY = "C03"
 RULE = (
@@ -83,6 +83,7 @@ class _State:
         self.scribble_after_derived = False
         self.big_input = False
         self.unpooled = 0
+        self.kept = {}
 
 
 def start(init, ctx):
@@ -201,7 +202,9 @@ def apply(s, name, a, ctx):
         label, fam = "swc-round-trip", "io"
         if not all(np.all(np.isfinite(t.ndata[c])) for c in "xyzr"):
             return
-        fn = lambda: Tree.from_swc(io.StringIO(t.to_swc()))  # noqa
+        off = [1, 0, 0, 7, 1000][a[3] % 5]
+        label = f"swc-round-trip[id_offset={off}]"
+        fn = lambda: Tree.from_swc(io.StringIO(t.to_swc(id_offset=off)))  # noqa
     elif code == 26:
         # Transforms(a, b[, c]) equals sequential application
         codes = [9 + (a[3] + j * 7) % 15 for j in range(2 + a[5] % 2)]
@@ -237,8 +240,26 @@ def apply(s, name, a, ctx):
             d = max(_mean_seg(t) * (0.3 + (a[3] % 28) / 10.0), 0.05)
             fn = lambda: T.IsometricResampler(d)(t)  # noqa
         else:
-            obj = spec[2]()
-            fn = lambda: obj(t)  # noqa
+            # transform objects are kept and used again (on other trees, on their own results): one object, many calls
+            if a[5] % 2 and code in s.kept:
+                obj = s.kept[code]
+                ctx.cls("transform-object-used-again")
+            else:
+                obj = s.kept[code] = spec[2]()
+            again = fam == "geometry" and a[4] % 3 == 0
+
+            def fn():
+                out = obj(t)
+                if again and len(out) > 0 and all(np.all(np.isfinite(out.ndata[c])) for c in "xyzr"):
+                    before = _snapshot(out)
+                    out2 = obj(out)
+                    ctx.cls("transform-applied-to-its-own-result")
+                    diff = _same(out, before)
+                    ctx.check(diff is None, f"{label}/earlier-result-changed-by-the-next-call", diff)
+                    for ko, vo in out2.ndata.items():
+                        for ki, vi in out.ndata.items():
+                            ctx.check(not np.shares_memory(vo, vi), f"{label}/results-of-two-calls-share-storage", f"{ko} / {ki}")
+                return out
 
     if n == 0:
         return
@@ -298,6 +319,100 @@ def apply(s, name, a, ctx):
         s.unpooled += 1
 
 
+# ----------------------------------------------------------------------------- large trees
+BULK_N = [255, 256, 257, 32767, 32768, 32769, 40000, 50000, 65535, 65536, 65537, 70000]
+
+
+@st.composite
+def bulk_strategy(draw, tier):
+    return {"tree": {"bulk": [draw(st.integers(0, 2 ** 31 - 1)), draw(st.sampled_from(BULK_N)),
+                              draw(st.sampled_from(["uniform", "caterpillar", "binary", "hubs"])), "lattice"]},
+            "sel": draw(st.lists(st.integers(0, 10 ** 6), min_size=4, max_size=4)),
+            "ops": draw(st.lists(st.sampled_from(["sort", "subtree", "to_subtree", "cut_type", "redirect", "redirect-nosort",
+                                                   "cat", "translate", "swc"]), min_size=3, max_size=5, unique=True))}
+
+
+def _wellformed_np(ids, pids, root=0):
+    n = len(ids)
+    if not np.array_equal(ids, np.arange(n)):
+        return "ids are not 0..n-1"
+    if pids[root] != -1 or int((pids == -1).sum()) != 1:
+        return f"roots {np.nonzero(pids == -1)[0][:5].tolist()}, expected only {root}"
+    others = np.delete(pids, root)
+    if others.size and (others.min() < 0 or others.max() >= n):
+        return f"a parent id names no node (min {int(others.min())}, max {int(others.max())})"
+    # every node reaches the root: pointer jumping
+    up = pids.astype(np.int64).copy()
+    up[root] = root
+    for _ in range(max(1, int(np.ceil(np.log2(max(n, 2)))) + 1)):
+        up = up[up]
+    if not np.all(up == root):
+        return f"node {int(np.nonzero(up != root)[0][0])} does not reach the root"
+    return None
+
+
+def run_bulk(case, ctx):
+    from swcgeom import transforms as T
+    from swcgeom.core import Tree, cat_tree, get_subtree, redirect_tree, sort_tree, to_subtree
+
+    t = gen_tree.materialize(case["tree"])
+    n = len(t["parents"])
+    tree = gen_tree.build_tree(t)
+    snap = _snapshot(tree)
+    par = np.array(t["parents"])
+    ctx.cls(f"bulk:n={n}", "bulk:" + t["shape"])
+    ctx.nontrivial(True)
+    sel = case["sel"]
+    tips = np.setdiff1d(np.arange(n), par[1:])
+    for op in case["ops"]:
+        root = 0
+        need_sorted = False
+        if op == "sort":
+            out, need_sorted = ctx.lib("sort_tree", sort_tree, tree), True
+        elif op == "subtree":
+            # the subtree below a child of the root (usually most of the tree) or below a random node
+            k = int(np.nonzero(par == 0)[0][sel[0] % max(1, int((par == 0).sum()))]) if sel[1] % 2 else sel[0] % n
+            out = ctx.lib("get_subtree", get_subtree, tree, k)
+        elif op == "to_subtree":
+            rem = [int(tips[(sel[1] + 7 * j) % len(tips)]) for j in range(1 + sel[2] % 5)]
+            out = ctx.lib("to_subtree", to_subtree, tree, rem)
+            ctx.check(len(out) == n - len(set(rem)), "bulk/to_subtree/node-count", f"{len(out)} of {n} after removing {len(set(rem))} tips")
+        elif op == "cut_type":
+            typ = int(t["type"][int(tips[sel[2] % len(tips)])])
+            out = ctx.lib("CutByType", lambda: T.CutByType(typ if typ != 1 else 0)(tree))
+        elif op in ("redirect", "redirect-nosort"):
+            k = sel[3] % n
+            out = ctx.lib(op, redirect_tree, tree, k, sort=op == "redirect")
+            need_sorted = op == "redirect"
+            root = 0 if op == "redirect" else k
+            ctx.check(len(out) == n, f"bulk/{op}/node-count", f"{len(out)} of {n}")
+        elif op == "cat":
+            small = gen_tree.build_tree(gen_tree.bulk_tree_case(sel[0] % 1000, 5 + sel[1] % 40, regime="lattice"))
+            out, need_sorted = ctx.lib("cat_tree", cat_tree, tree, small, sel[2] % n, sel[3] % len(small), translate=bool(sel[0] % 2)), True
+        elif op == "translate":
+            out = ctx.lib("Translate", lambda: T.Translate(1.0, -2.0, 0.5)(tree))
+            ctx.check(len(out) == n, "bulk/translate/node-count", f"{len(out)} of {n}")
+        else:
+            off = [1, 0, 7][sel[2] % 3]
+            out = ctx.lib("swc-round-trip", lambda: Tree.from_swc(io.StringIO(tree.to_swc(id_offset=off))))
+            ctx.check(np.array_equal(out.pid(), par), "bulk/swc-round-trip/parents", f"id_offset={off}")
+        m = len(out)
+        if 32769 <= m <= 65535:
+            ctx.cls("bulk:result-of-32769..65535-nodes")
+        if m:
+            ids, pids = np.asarray(out.id()).astype(np.int64), np.asarray(out.pid()).astype(np.int64)
+            reason = _wellformed_np(ids, pids, root)
+            if reason is None and need_sorted and not np.all(pids[1:] < ids[1:]):
+                reason = "a parent does not precede its child"
+            ctx.check(reason is None, f"bulk/{op}/well-formed", lambda: f"{reason} (input of {n} nodes, result of {m})")
+            for kcol, v in out.ndata.items():
+                ctx.check(len(v) == m, f"bulk/{op}/column-lengths", f"column {kcol} has {len(v)} rows for {m} nodes")
+                for ki, vi in tree.ndata.items():
+                    ctx.check(not np.shares_memory(v, vi), f"bulk/{op}/shares-storage-with-input", f"{kcol} / {ki}")
+        diff = _same(tree, snap)
+        ctx.check(diff is None, f"bulk/{op}/input-modified", diff)
+
+
 def invariant(s, ctx):
     for k, e in enumerate(s.pool):
         diff = _same(e.tree, e.snap)
@@ -319,5 +434,8 @@ SUBCHECKS = [
             quick=1600, thorough=10000, steps_quick=30, steps_thorough=60, shards_quick=8,
             required={"scribble-after-derived": 150, "family:structure": 200, "family:prune": 150, "family:geometry": 200,
                       "family:shape": 100, "family:io": 60, "family:compose": 60, "steps>=3": 250,
-                      "start:numbering-not-parent-before-child": 100}),
+                      "start:numbering-not-parent-before-child": 100, "transform-object-used-again": 150,
+                      "transform-applied-to-its-own-result": 100}),
+    Sub("bulk", bulk_strategy, run_bulk, quick=28, thorough=160, shards_quick=7, shards_thorough=16,
+        required={"bulk:result-of-32769..65535-nodes": 6, "bulk:n=256": 1, "bulk:n=65536": 1}),
 ]
